@@ -1,4 +1,7 @@
 import Girc.Proofs.Pure
+import Girc.Proofs.SendPath
+import Girc.Gen.Skel
+import Girc.Spec.Skeletons
 /- C16 — flood protection bounds the send rate. Property theorems only (arithmetic and trace inequality). -/
 namespace Girc.Props.C16
 open Girc Girc.Model Girc.Proofs.Pure
@@ -18,6 +21,68 @@ theorem leaky_bucket (wd : Int) (tr : List Step) (hwd : 0 ≤ wd)
 theorem message_rate (wd : Int) (tr : List Step) (hwd : 0 ≤ wd)
     (h : ∀ s ∈ tr, 0 ≤ s.since ∧ 0 ≤ s.extra) :
     (tr.length : Int) * second ≤ 8 * second + (runTrace wd tr).2.1 := Proofs.Pure.message_rate wd tr hwd h
+
+/-! ### the outgoing path: `Send` (limiter per piece unless AllowFlood), `write` (keep-alives), the `tx` queue, `sendLoop` -/
+
+/-- The code the path model (Model/SendPath.lean) was written against is the code in the tree (regenerated on every run). -/
+theorem skel_sendpath : Gen.skel_Send = Spec.Skel.skel_Send ∧ Gen.skel_write = Spec.Skel.skel_write ∧
+    Gen.skel_sendLoop = Spec.Skel.skel_sendLoop ∧ Gen.skel_ircConn_rate = Spec.Skel.skel_ircConn_rate ∧
+    Gen.skel_Cmd_Ping = Spec.Skel.skel_Cmd_Ping ∧ Gen.skel_Cmd_Pong = Spec.Skel.skel_Cmd_Pong := by decide +kernel
+
+/-- Every piece handed to `Send` with flood protection on is charged; once the outstanding cost exceeds the
+    allowance it is held for exactly its own cost, and it is queued behind everything handed over before. -/
+theorem piece_held {α : Type} (s : SendSt α) (now : Int) (e : α) (len : Nat) :
+    let r := stepSend false s (.send now e len)
+    (r.2 = 0 ∨ r.2 = cost len) ∧ (r.2 = cost len ↔ r.1.writeDelay > 8 * second) ∧ 0 ≤ r.1.writeDelay ∧
+    r.1.queue = s.queue ++ [e] := Proofs.SendPath.piece_held s now e len
+
+/-- With AllowFlood no delay is ever inserted, for any history of sends, keep-alives and socket writes. -/
+theorem allow_flood_no_delay {α : Type} (ops : List (SendOp α)) (s : SendSt α) :
+    (∀ d ∈ (runSend true s ops).2, d = 0) ∧ (runSend true s ops).1.writeDelay = s.writeDelay :=
+  Proofs.SendPath.allow_flood_no_delay ops s
+
+/-- PING/PONG (everything sent through `write`) is never delayed and never charged, however much the limiter owes. -/
+theorem keepalive_bypass {α : Type} (flood : Bool) (s : SendSt α) (e : α) :
+    (stepSend flood s (.write e)).2 = 0 ∧ (stepSend flood s (.write e)).1.writeDelay = s.writeDelay ∧
+    (stepSend flood s (.write e)).1.lastWrite = s.lastWrite ∧ (stepSend flood s (.write e)).1.queue = s.queue ++ [e] :=
+  Proofs.SendPath.keepalive_bypass flood s e
+
+/-- Order: what has been written followed by what is still queued is exactly what was handed over, in call order —
+    for every interleaving of sends, keep-alives and socket writes. -/
+theorem order_kept {α : Type} (flood : Bool) (ops : List (SendOp α)) (s : SendSt α) :
+    (runSend flood s ops).1.wire ++ (runSend flood s ops).1.queue = s.wire ++ s.queue ++ handedOver ops :=
+  Proofs.SendPath.fifo flood ops s
+
+theorem wire_is_prefix_of_calls {α : Type} (flood : Bool) (ops : List (SendOp α)) :
+    (runSend flood ({} : SendSt α) ops).1.wire <+: handedOver ops := Proofs.SendPath.wire_prefix flood ops
+
+/-- The queue machine driven by a serial sender is the trace `leaky_bucket` speaks about, so the bound holds for it:
+    total cost written ≤ 8 s allowance + elapsed wall-clock time between the first and the last write. -/
+theorem serial_leaky_bucket (s : SendSt Unit) (tr : List Step) (hq : s.queue = []) (hdue : s.lastDue ≤ s.lastWrite)
+    (hwd : 0 ≤ s.writeDelay) (h : ∀ st ∈ tr, 0 ≤ st.since ∧ 0 ≤ st.extra) :
+    (runTrace s.writeDelay tr).2.2 ≤ 8 * second + ((Proofs.SendPath.serialRun s tr).lastWrite - s.lastWrite) :=
+  Proofs.SendPath.serial_leaky_bucket s tr hq hdue hwd h
+
+/-- "No matter how fast the application calls the send helpers": NOTHING is assumed about `sendLoop` keeping up. For every
+    history of sends, keep-alives and (arbitrarily late) socket writes that respects the clock discipline (a call happens no
+    earlier than the last write and than the moment the previously rated event was due — the caller sleeps the delay), the
+    total cost passed through `Send` is at most the 8-second allowance plus the wall-clock time from the reference point at
+    the start to the moment the last event is due. (Before repair F46 elapsed time was credited from `lastWrite` alone, which
+    lags while events are queued: the same idle period was credited on every call and this bound was false.) -/
+theorem limiter_bound {α : Type} (ops : List (SendOp α)) (s : SendSt α) (hwd : 0 ≤ s.writeDelay) (hd : Disciplined s ops) :
+    sentCost ops ≤ 8 * second + ((runSend false s ops).1.ref - s.ref) := Proofs.SendPath.limiter_bound' ops s hwd hd
+
+/-- F46 regression witness: twelve 50-byte messages (18 s of cost) handed over within the same instant after five idle
+    seconds, no socket write in between: the first six pass, every further one is held for its cost. -/
+example : (runSend false ({ lastWrite := 0 } : SendSt Nat) (List.replicate 12 (.send (5 * second) 0 50))).2 =
+    [0, 0, 0, 0, 0, 0] ++ List.replicate 6 1500000000 := by decide
+
+/-- Non-vacuity: a saturated limiter, a message, a PONG, two socket writes — the message is held 1.5 s, the PONG is not,
+    and both reach the wire in call order. -/
+example : (runSend false ({ writeDelay := 9 * second } : SendSt Nat) [.send 0 7 50, .write 8, .flush 1, .flush 2]).2 =
+    [1500000000, 0, 0, 0] ∧
+    (runSend false ({ writeDelay := 9 * second } : SendSt Nat) [.send 0 7 50, .write 8, .flush 1, .flush 2]).1.wire = [7, 8] := by
+  decide
 
 /-- Ten 50-byte messages back to back from an idle connection: the 6th onwards are each held 1.5 s. -/
 example : (runTrace 0 (List.replicate 10 ⟨0, 50, 0⟩)).2.1 = 5 * 1500000000 := by decide
